@@ -70,7 +70,7 @@ def judge(r, cfg):
     ndebug = cfg in NDEBUG_CFGS
     expect_abort = (md.get("abn") if ndebug else md.get("ab")) == "1"
     crashed = "crash" in r and cfg in r["crash"]
-    aborted = crashed and r["crash"][cfg]["rc"] in (-6, 134)
+    aborted = crashed          # the property says "terminates the program": std::abort, a failed assert, a trap ... all count
     # the property, evaluated directly on the generated input
     should = (meta["wrong"] and meta["rank"] > 0) and not ndebug
     out = []
